@@ -104,8 +104,8 @@ def from_byte(cx):
     # (the compressed branch is an `||` of two equalities: removing both passed edges must cut it)
     for sk in unc:
         G.guard(cx, 'G-FLAG', 'from_byte/uncompressed', fn, P, [sk],
-                lambda pr: pr.kind == 'eq' and any(cn.c(a) in ('$b[0]',) for a in pr.args) and 4 in [const_int(a) for a in pr.args],
-                True, 'uncompressed decoding requires the SEC1 tag 0x04', require_fail_blocks_sink=False)
+                lambda pr: pr.kind == 'eq' and any(cn.c(a) in ('$b[0]',) for a in pr.args) and any(const_int(a) in (4, 6, 7) for a in pr.args),
+                True, 'uncompressed-layout decoding requires the SEC1 tag 0x04 (or the hybrid tags 0x06/0x07)', require_fail_blocks_sink=False)
     for sk in comp:
         G.guard(cx, 'G-FLAG', 'from_byte/compressed', fn, P, [sk],
                 lambda pr: pr.kind == 'eq' and any(cn.c(a) in ('$b[0]',) for a in pr.args) and any(const_int(a) in (2, 3) for a in pr.args),
